@@ -29,10 +29,11 @@ def main():
     rc_a, out_a = run("cargo test --offline 2>&1 | grep -E '^test result|FAILED|error' | sort | uniq -c", wt, env)
     tests_ok = "FAILED" not in out_a and "error" not in out_a and "test result: ok" in out_a
     shutil.copy(os.path.join(src, "demo.rs"), os.path.join(wt, "tests", "demo.rs"))
-    rc_b, out_b = run("cargo test --offline --test demo 2>&1 | tail -5", wt, env)
+    feat = (" --features " + os.environ["MUT_FEATURES"]) if os.environ.get("MUT_FEATURES") else ""
+    rc_b, out_b = run("cargo test --offline%s --test demo 2>&1 | tail -5" % feat, wt, env)
     demo_fails_with = "FAILED" in out_b or "failed" in out_b
     run("git checkout -- .", wt)
-    rc_c, out_c = run("cargo test --offline --test demo 2>&1 | tail -5", wt, env)
+    rc_c, out_c = run("cargo test --offline%s --test demo 2>&1 | tail -5" % feat, wt, env)
     demo_passes_without = "test result: ok" in out_c
     os.remove(os.path.join(wt, "tests", "demo.rs"))
     print("existing tests pass with change:", tests_ok)
